@@ -59,6 +59,12 @@ func c11StmtKits() map[string][]*ast.Node {
 		"forin-number":     {ast.ForIn("c11e", "", ast.Num("5"), ast.Block())},
 		"member-on-number": {set("c11n", ast.Num("5")), ast.ExprS(ast.Set(ast.Mem(ast.Id("c11n"), "k"), ast.Num("1")))},
 		"incdec-on-number": {set("c11n", ast.Num("5")), ast.ExprS(ast.Post("++", ast.Mem(ast.Id("c11n"), "k")))},
+		// the member is named like a method of the receiver's own kind
+		"method-named-member-on-number":          {set("c11n", ast.Num("5")), ast.ExprS(ast.Set(ast.Mem(ast.Id("c11n"), "floor"), ast.Num("1")))},
+		"method-named-member-on-string":          {set("c11s", ast.Str("abc")), ast.ExprS(ast.Set(ast.Mem(ast.Id("c11s"), "length"), ast.Num("1")))},
+		"method-named-member-on-array":           {set("c11a", ast.Arr(ast.Num("1"))), ast.ExprS(ast.Set(ast.Mem(ast.Id("c11a"), "push"), ast.Num("1")))},
+		"incdec-on-method-named-member":          {set("c11n", ast.Num("5")), ast.ExprS(ast.Post("++", ast.Mem(ast.Id("c11n"), "round")))},
+		"compound-on-method-named-member":        {set("c11s", ast.Str("abc")), ast.ExprS(ast.Asg("+=", ast.Mem(ast.Id("c11s"), "upper"), ast.Num("1")))},
 		"string-index-on-array": {set("c11a", ast.Arr()), ast.ExprS(ast.Set(ast.Idx(ast.Id("c11a"), ast.Str("x")), ast.Num("1")))},
 		"index-too-large":  {set("c11a", ast.Arr()), ast.ExprS(ast.Set(ast.Idx(ast.Id("c11a"), ast.Num("3000000")), ast.Num("1")))},
 		"forin-unset":      {ast.ForIn("c11e", "", ast.Id("c11unset"), ast.Block())},
@@ -404,7 +410,7 @@ func genC11Splice(t *rapid.T) *C11Splice {
 	sep := ast.Tok{Kind: ast.TSep}
 	positions := c11StmtPositions(base.Prog, r)
 	recipe := rapid.SampledFrom([]string{"illegal-char", "stray-token", "return-at-rule-level", "break-outside-loop", "continue-outside-loop",
-		"invalid-assignment", "unterminated-string", "unterminated-regex", "unbalanced-curly", "loop-control-in-loop-header", "invalid-assignment", "for-in-without-in"}).Draw(t, "recipe")
+		"invalid-assignment", "unterminated-string", "unterminated-regex", "unbalanced-curly", "loop-control-in-loop-header", "invalid-assignment", "for-in-without-in", "ends-mid-construct"}).Draw(t, "recipe")
 	var toks []ast.Tok
 	pickPos := func(filter func(p c11Pos) bool) (c11Pos, bool) {
 		var cands []c11Pos
@@ -502,6 +508,11 @@ func genC11Splice(t *rapid.T) *C11Splice {
 		toks = insertToks(r, len(r.Toks), raw(q+"abc"))
 	case "unterminated-regex":
 		toks = insertToks(r, len(r.Toks), raw("/abc"))
+	case "ends-mid-construct":
+		// the program text stops in the middle of a construct, on the very last byte
+		tail := rapid.SampledFrom([]string{"$ > 1.", "c11x = 10.", "c11x .", "$ .", "c11x [", "c11f (", "1 +", "c11x =", "c11x = !", "c11x = -", "c11x = [ 1 ,", "c11x = { a :", "c11x = { a", "match ( 1 ) {", "if (", "for ( c11v in", "function", "function c11g (", "c11x = 1 is"}).Draw(t, "midtail")
+		toks = insertToks(r, len(r.Toks), raw(tail))
+		recipe += ":" + tail
 	case "unbalanced-curly":
 		if rapid.Bool().Draw(t, "atend") {
 			toks = insertToks(r, len(r.Toks), raw("{"))
@@ -516,7 +527,11 @@ func genC11Splice(t *rapid.T) *C11Splice {
 		recipe = "illegal-char:\"@\""
 	}
 	r2 := &ast.Rendering{Toks: toks}
-	return &C11Splice{Src: r2.Join(ast.Canonical{}).Src, Files: base.Files, Recipe: recipe}
+	src := r2.Join(ast.Canonical{}).Src
+	if strings.HasPrefix(recipe, "ends-mid-construct") {
+		src = strings.TrimRight(src, " \t\r\n")
+	}
+	return &C11Splice{Src: src, Files: base.Files, Recipe: recipe}
 }
 
 func TestC11(t *testing.T) {
